@@ -23,13 +23,23 @@ ssize_t read(int fd, void *buf, size_t n)
 #define Q_OK	(0 <= ibuf_pos && ibuf_pos <= ibuf_cnt && ibuf_cnt <= (int) sizeof(ibuf) && 0 <= icmd_pos && icmd_pos <= (int) sizeof(icmd))
 char g_oldbyte;
 
+/* C09: "executing a register / repeating a change is typing its keys": every pushed key is queued.
+ * Known finding F9: a push that does not fit into the rest of the 4096-byte queue is cut short
+ * (the input class is split off by KF_EXCLUDE_F9 / KF_ONLY_F9, see known_findings.json). */
+#if defined(KF_EXCLUDE_F9)
+#define PUSH_CASE(n)	((n) <= (int) sizeof(ibuf) - ibuf_cnt)
+#elif defined(KF_ONLY_F9)
+#define PUSH_CASE(n)	((n) > (int) sizeof(ibuf) - ibuf_cnt)
+#else
+#define PUSH_CASE(n)	1
+#endif
 void term_push_contract(char *s, int n)
-__CPROVER_requires(Q_OK && 0 <= n && n <= 0x10000 && (n == 0 || __CPROVER_is_fresh(s, n)))
+__CPROVER_requires(Q_OK && 0 <= n && n <= 0x10000 && (n == 0 || __CPROVER_is_fresh(s, n)) && PUSH_CASE(n))
 __CPROVER_requires((0 <= g_mw && g_mw < ibuf_cnt) ==> g_oldbyte == ibuf[g_mw])
 __CPROVER_assigns(ibuf_cnt, __CPROVER_object_whole(ibuf))
 __CPROVER_ensures(Q_OK)
-/* pushback is bounded by the remaining room; everything that fits is queued, in order, after what is already there */
-__CPROVER_ensures(ibuf_cnt == __CPROVER_old(ibuf_cnt) + (n <= (int) sizeof(ibuf) - __CPROVER_old(ibuf_cnt) ? n : (int) sizeof(ibuf) - __CPROVER_old(ibuf_cnt)))
+/* every pushed key is queued, in order, after what is already there */
+__CPROVER_ensures(ibuf_cnt == __CPROVER_old(ibuf_cnt) + n)
 __CPROVER_ensures((__CPROVER_old(ibuf_cnt) <= g_mw && g_mw < ibuf_cnt) ==> ibuf[g_mw] == s[g_mw - __CPROVER_old(ibuf_cnt)])
 __CPROVER_ensures((0 <= g_mw && g_mw < __CPROVER_old(ibuf_cnt)) ==> ibuf[g_mw] == g_oldbyte)
 ;
